@@ -105,6 +105,15 @@ func (x *Exec) canInline(fr *Frame, fn *ssa.Function, key string) bool {
 	if !x.p.effects.isRepoFn(fn) {
 		return false
 	}
+	// generic bodies and their instantiation wrappers mix concrete and type-parameter sorts
+	for g := fn; g != nil; g = g.Parent() {
+		if g.Origin() != nil || len(g.TypeArgs()) > 0 || (g.TypeParams() != nil && g.TypeParams().Len() > 0) {
+			return false
+		}
+	}
+	if x.mode == "sweep" && x.sweepSet[fn] {
+		return false // swept as a unit of its own
+	}
 	for _, f := range x.inlineStack {
 		if f == fn {
 			return false
